@@ -7,6 +7,11 @@ NEG = {"<": ">=", ">=": "<", ">": "<=", "<=": ">", "==": "!=", "!=": "=="}
 SWAP = {"<": ">", ">": "<", "<=": ">=", ">=": "<=", "==": "==", "!=": "!="}
 
 
+# non-const std:: members that hand out references / iterators but do not change the container's shape
+STD_ACCESSORS = ("operator[]", "at", "begin", "end", "rbegin", "rend", "data", "front", "back", "find", "lower_bound",
+                 "upper_bound", "operator*", "operator->", "get")
+
+
 class Ctx:
     """Per-function helper: mutation table of locals, origins, keys."""
 
@@ -52,10 +57,11 @@ class Ctx:
                     cp = n.get("cparams") or []
                     args = n["args"]
                     off = 0
+                    accessor = (n.get("cname") or "").startswith("std::") and strip_targs(n.get("cname") or "").split("::")[-1] in STD_ACCESSORS
                     if k == "call" and n["ck"] == "op" and n.get("ismember"):
                         # first arg is the object
                         d = self.root_var(args[0]) if args else None
-                        if d is not None and not n.get("cconst", False):
+                        if d is not None and not n.get("cconst", False) and not accessor:
                             mut.setdefault(d, []).append(j)
                         off = 1
                     if k == "call" and n["ck"] == "method":
@@ -64,7 +70,7 @@ class Ctx:
                             # calling a non-const method on a by-value local object / through a pointer local:
                             # mutates the object, not the pointer.  Record for objects only.
                             dv = decl.get(d)
-                            if not n.get("arrow"):
+                            if not n.get("arrow") and not accessor:
                                 mut.setdefault(d, []).append(j)
                     for ai, a in enumerate(args[off:]):
                         kind = cp[ai] if ai < len(cp) else "ref"
@@ -190,7 +196,10 @@ class Ctx:
         elif k == "cond":
             r = ("cond", K(n["c"]), K(n["a"]), K(n["b"]))
         elif k == "cast":
-            r = ("cast", n["t"], K(n["sub"]))
+            if n.get("ckind") in ("NoOp", "IntegralCast", "UserDefinedConversion", "LValueToRValue", "ConstructorConversion"):
+                r = K(n["sub"])      # value-preserving for the guard reasoning done here
+            else:
+                r = ("cast", n["t"], K(n["sub"]))
         elif k in ("defarg", "definit", "stdinitlist"):
             r = K(n["sub"])
         elif k == "new":
